@@ -60,71 +60,97 @@ func formatLogs() {
 
 func init() {
 	register("p2p-net", func(c *Ctx) {
-		cmd := exec.Command(os.Args[0], "p2pnet-child", fmt.Sprint(c.Seed), fmt.Sprint(c.N), c.Tier, c.Args["only"], c.Args["scn"])
-		var stderr bytes.Buffer
-		cmd.Stderr = &stderr
-		cmd.Env = append(os.Environ(), "ZVH_STDERR=1")
-		stdout, err := cmd.StdoutPipe()
-		if err != nil {
-			c.Fail("C15 p2p-net: harness cannot start the node process: %v", err)
-			return
-		}
-		if err := cmd.Start(); err != nil {
-			c.Fail("C15 p2p-net: harness cannot start the node process: %v", err)
-			return
-		}
-		timer := time.AfterFunc(15*time.Minute, func() { cmd.Process.Kill() })
-		defer timer.Stop()
-		var last, pendingLeft []string
-		finished := false
-		sc := bufio.NewScanner(stdout)
-		sc.Buffer(make([]byte, 1<<20), 1<<24)
-		for sc.Scan() {
-			line := sc.Text()
-			switch {
-			case strings.HasPrefix(line, "REQ "):
-				last = append(last, line[4:])
-				if len(last) > 6 {
-					last = last[len(last)-6:]
-				}
-				// (a request that a peer left unanswered for good matters seconds later, when it expires: kept apart)
-				if strings.Contains(line, "does not answer") || strings.Contains(line, "LEAVES") {
-					pendingLeft = append(pendingLeft, line[4:])
-					if len(pendingLeft) > 40 {
-						pendingLeft = pendingLeft[len(pendingLeft)-40:]
-					}
-				}
-			case strings.HasPrefix(line, "HIT "):
-				c.Hit(line[4:])
-			case strings.HasPrefix(line, "FAIL "):
-				c.Fail("%s", line[5:])
-			case strings.HasPrefix(line, "LINE "):
-				c.Emit("%s", line[5:])
-			case line == "CHILD-FINISHED":
-				finished = true
-			}
-		}
-		werr := cmd.Wait()
-		if werr != nil || !finished {
-			// the panic message and the frames of the node's code
-			var keep []string
-			for _, l := range strings.Split(stderr.String(), "\n") {
-				l = strings.TrimSpace(l)
-				if strings.HasPrefix(l, "panic:") || strings.HasPrefix(l, "fatal error:") ||
-					(strings.HasPrefix(l, "github.com/zenon-network/go-zenon/") && len(keep) < 7) {
-					keep = append(keep, firstLine(l))
-				}
-			}
-			leftNote := ""
-			if len(pendingLeft) > 0 {
-				leftNote = "; peers that LEFT, and what they had been asked for and did not answer (a request stays in flight until its time-out: hash request 5s, block request 9s): " + strings.Join(pendingLeft, " ;; ")
-			}
-			c.Fail("C15 class=process-terminated the node process terminated (%v) [%s]; the last messages remote peers sent, oldest first: %s%s",
-				werr, strings.Join(keep, " <- "), strings.Join(last, " ;; "), leftNote)
-			return
-		}
-		c.Emit("p2p-net-survived | ok")
+		runNodeChild(c, "p2p-net", "p2p-net-survived", 6, "p2pnet-child", fmt.Sprint(c.Seed), fmt.Sprint(c.N), c.Tier, c.Args["only"], c.Args["scn"])
 	})
+}
+
+// runNodeChild runs the node under test in a CHILD process (this binary, mode args[0]) and relays its report: REQ lines (what
+// remote peers sent; the last `window` are kept — window < 0: the last -window of every channel), HIT counters, FAIL = monitor failures, LINE = trace lines. A death of the
+// child is the failure class=process-terminated, reported with the panic, the frames of the node's code and the last inputs.
+func runNodeChild(c *Ctx, stream, okLine string, window int, args ...string) {
+	cmd := exec.Command(os.Args[0], args...)
+	var stderr bytes.Buffer
+	cmd.Stderr = &stderr
+	cmd.Env = append(os.Environ(), "ZVH_STDERR=1")
+	stdout, err := cmd.StdoutPipe()
+	if err != nil {
+		c.Fail("C15 %s: harness cannot start the node process: %v", stream, err)
+		return
+	}
+	if err := cmd.Start(); err != nil {
+		c.Fail("C15 %s: harness cannot start the node process: %v", stream, err)
+		return
+	}
+	timer := time.AfterFunc(15*time.Minute, func() { cmd.Process.Kill() })
+	defer timer.Stop()
+	var last, pendingLeft, channels []string
+	byChannel := map[string][]string{}
+	finished := false
+	sc := bufio.NewScanner(stdout)
+	sc.Buffer(make([]byte, 1<<20), 1<<24)
+	for sc.Scan() {
+		line := sc.Text()
+		switch {
+		case strings.HasPrefix(line, "REQ "):
+			if window < 0 {
+				// parts of the child that run side by side: the last -window lines of every channel (the word in front of '[')
+				ch := line[4:]
+				if i := strings.IndexByte(ch, '['); i > 0 {
+					ch = ch[:i]
+				}
+				if _, ok := byChannel[ch]; !ok {
+					channels = append(channels, ch)
+				}
+				byChannel[ch] = append(byChannel[ch], line[4:])
+				if len(byChannel[ch]) > -window {
+					byChannel[ch] = byChannel[ch][1:]
+				}
+			} else {
+				last = append(last, line[4:])
+				if len(last) > window {
+					last = last[len(last)-window:]
+				}
+			}
+			// (a request that a peer left unanswered for good matters seconds later, when it expires: kept apart)
+			if strings.Contains(line, "does not answer") || strings.Contains(line, "LEAVES") {
+				pendingLeft = append(pendingLeft, line[4:])
+				if len(pendingLeft) > 40 {
+					pendingLeft = pendingLeft[len(pendingLeft)-40:]
+				}
+			}
+		case strings.HasPrefix(line, "HIT "):
+			c.Hit(line[4:])
+		case strings.HasPrefix(line, "FAIL "):
+			c.Fail("%s", line[5:])
+		case strings.HasPrefix(line, "LINE "):
+			c.Emit("%s", line[5:])
+		case line == "CHILD-FINISHED":
+			finished = true
+		}
+	}
+	werr := cmd.Wait()
+	if werr != nil || !finished {
+		// the panic message and the frames of the node's code
+		var keep []string
+		for _, l := range strings.Split(stderr.String(), "\n") {
+			l = strings.TrimSpace(l)
+			if strings.HasPrefix(l, "panic:") || strings.HasPrefix(l, "fatal error:") ||
+				(strings.HasPrefix(l, "github.com/zenon-network/go-zenon/") && len(keep) < 7) {
+				keep = append(keep, firstLine(l))
+			}
+		}
+		leftNote := ""
+		if len(pendingLeft) > 0 {
+			leftNote = "; peers that LEFT, and what they had been asked for and did not answer (a request stays in flight until its time-out: hash request 5s, block request 9s): " + strings.Join(pendingLeft, " ;; ")
+		}
+		for _, ch := range channels {
+			last = append(last, byChannel[ch]...)
+		}
+		c.Fail("C15 class=process-terminated the node process terminated (%v) [%s]; the last messages remote peers sent, oldest first: %s%s",
+			werr, strings.Join(keep, " <- "), strings.Join(last, " ;; "), leftNote)
+		return
+	}
+	c.Emit("%s | ok", okLine)
 }
 
 // netCtx is the reporting side of the child process (used from many goroutines).
